@@ -1797,7 +1797,12 @@ PROPS = {
             "assumptions": ["arm extraction sees method calls of the form self.method(args) / Self::method(); other control flow "
                             "in an arm is only covered by the correspondence"]},
     "C08": {"ns": "C08", "cases": cases_c08,
-            "level_text": "Proof. Hand model of TryFrom<CommandView> for ctap1::Request with the three try_into().unwrap() "
+            "level_text": "Proof. The body of TryFrom<CommandView> for ctap1::Request is translated on every run into a program "
+                          "(guards with early returns, the control-byte conversion and its error, the indexed length byte, the "
+                          "match-ins arms, the slices each request is built from; anything else in the body is untranslatable); "
+                          "obligation ob_program: it equals the specified program; theorem source_is_model (runProgram_spec): "
+                          "the interpreter — every indexing, slicing and try_into().unwrap() an explicit outcome — on it is the "
+                          "model below. Model of TryFrom<CommandView> for ctap1::Request with the three try_into().unwrap() "
                           "sites and the slice indexing as explicit panic outcomes and the Instruction::Unknown quirk; theorem "
                           "parse_spec: for all class / instruction / P1 bytes and data of any length the model returns (never "
                           "panics) exactly the specification's decision list; class_first and version_any are corollaries. "
